@@ -582,7 +582,7 @@ func genPoolCases(c *Ctx) []json.RawMessage {
 }
 
 func checkC09(c *Ctx) {
-	c.rule = "MC: the grow-and-park / release / flush life-cycle of reader, bytes reader, writer, bytes writer and ReaderSkipDecoder, composed with a co-tenant over 3 pool buffers, keeps the ownership invariants under every interleaving (9 steps). APALACHE: the invariants plus a strengthening (Ind_BufPool.tla) are inductive for every kind, 4 buffers, runs of any length (base, step, negative control, probes). TRACE: real histories over the instrumented pool double (registry, poison-on-free, foreign/double-free detection) that retain every handed-out slice across later operations, with the co-tenant draining and scribbling every size class between operations; every pool event must be an enabled BufPool action (P1..P5) and every content/caller-memory/disjointness monitor event must be ok."
+	c.rule = "MC: the grow-and-park / release / flush life-cycle of reader, bytes reader, writer, bytes writer and ReaderSkipDecoder, composed with a co-tenant over 3 pool buffers, keeps the ownership invariants under every interleaving (9 steps). APALACHE: the invariants plus a strengthening (Ind_BufPool.tla) are inductive for every kind, 4 buffers, runs of any length (base, step, negative control, probes). TLAPS: Proof_BufPool.tla proves MCSpec => []IndInv for an arbitrary set of pool buffers (41 obligations; a negative control must fail). TRACE: real histories over the instrumented pool double (registry, poison-on-free, foreign/double-free detection) that retain every handed-out slice across later operations, with the co-tenant draining and scribbling every size class between operations; every pool event must be an enabled BufPool action (P1..P5) and every content/caller-memory/disjointness monitor event must be ok."
 	for _, k := range []string{"reader", "bytesreader", "writer", "byteswriter", "decoder"} {
 		c.MC("MC_BufPool.tla", "MC_BufPool_"+k+".cfg", 4)
 	}
@@ -595,6 +595,11 @@ func checkC09(c *Ctx) {
 		for _, pr := range []string{"ProbeNoLive", "ProbeNoPend", "ProbeNoCo"} {
 			c.Apalache("Ind_BufPool.tla", "non-vacuity probe "+pr, true, "--cinit=ConstInit", "--init=IndInit", "--next=Next", "--inv="+pr, "--length=0")
 		}
+	}
+	// machine-checked proof (TLAPS) of the same inductive invariant for ANY set of pool buffers
+	c.TLAPS("Proof_BufPool.tla", "MCSpec => []IndInv for an arbitrary set of buffers, every kind", false)
+	if c.Thorough() {
+		c.TLAPS("Proof_BufPool_neg.tla", "negative control: free-on-grow protocol", true)
 	}
 	c.TraceCheck(famPool, genPoolCases(c))
 	c.Assume("the pool double (harness/third_party/bgopkg/lang/mcache) keeps mcache's contract: power-of-two classes, len=size, Free ignores non-power-of-two capacities; it adds registry, LIFO reuse, poison and event log")
